@@ -16,7 +16,8 @@
 (***************************************************************************)
 EXTENDS GilInt
 
-ChRange(m) == Pow2(m.bits) - 1          \* m.bits <= 16
+\* (a scoped integer channel declares its own range: max - min)
+ChRange(m) == IF "range" \in DOMAIN m THEN m.range ELSE Pow2(m.bits) - 1          \* m.bits <= 16
 
 -----------------------------------------------------------------------------
 (* Property layer, narrow (<= 16 bit) integral models, complete tables     *)
